@@ -460,6 +460,14 @@ class FCtx(object):
                 return None
             for ev in self.events:
                 if ev.seq <= st.seq:
+                    # built first, stored afterwards: what was put into the local before it was stored ends up under that path
+                    # just the same (``section = {}; section["id"] = ...; data["compose"] = section``)
+                    if ev is not st and ev.kind == "store" and ev.target is not None and ev.target[0] == "sub" \
+                            and T.root_of(ev.target) is not None and T.same_local(T.root_of(ev.target), loc) \
+                            and not T.contains(ev.value, lambda x: x[0] == "local" and T.same_local(x, loc)) and ev.loops == st.loops:
+                        ev.target = T.subst(ev.target, fn)
+                        if ev.raw_target is not None:
+                            ev.raw_target = T.subst(ev.raw_target, fn)
                     continue
                 for fld in ("value", "target", "raw", "raw_target"):
                     v = getattr(ev, fld)
@@ -1428,6 +1436,11 @@ def writer_emits(model, fref, out_index=1):
                     attach.append((ev.value, p, ev.guards, ev.loops, ev))
                     emits.append(Emit([cx.norm(x) for x in p], ("dict", ()) if T.unwrap(ev.value) == ("dict", ()) else cx.norm(ev.value),
                                       ev.guards, ev.loops, ev))
+                elif ev.value[0] == "dict" and ev.value[1] and all(k[0] == "const" and k[1] != "**" for k, _ in ev.value[1]):
+                    # out[section] = {"k": v, ...}: the section, and each key in it
+                    emits.append(Emit([cx.norm(x) for x in p], ("dict", ()), ev.guards, ev.loops, ev))
+                    for k, v in ev.value[1]:
+                        emits.append(Emit([cx.norm(x) for x in p] + [k], cx.norm(v), ev.guards, ev.loops, ev))
                 else:
                     emits.append(Emit([cx.norm(x) for x in p], cx.norm(ev.value), ev.guards, ev.loops, ev))
                 continue
